@@ -260,6 +260,26 @@ def _var_side(fi: FuncInfo, name: str, sides: dict[str, str]) -> str | None:
     return None
 
 
+def msg_size_rule(model: Model, run: Run, folder: Folder) -> None:
+    """shared by C07.R1 and C01.R13: the message size is raised to 65535 only when BOTH OPENs announce Extended Message"""
+    neg = model.func(NEG + '._negotiate')
+    run.analysed(neg)
+    sides = _sides(model, neg)
+    sts = [n for n in walk_no_nested(neg.node) if isinstance(n, ast.Assign) and dotted(n.targets[0]) == 'self.msg_size']
+    ok = len(sts) == 1
+    terms: set = set()
+    if ok:
+        weak = False
+        for t, pol in guards(neg.node, sts[0]):
+            tt, w = cap_terms(t, sides)
+            if tt and not pol:
+                continue
+            terms |= tt
+            weak = weak or w
+        ok = terms == BOTH('EXTENDED_MESSAGE') and not weak and folder.fold(sts[0].value, neg.module, neg.cls) == 65535
+    run.check(ok, neg.qualname, 'self.msg_size raised under %s' % (sorted(terms) if sts else None), neg.loc(sts[0]) if sts else neg.loc(), 'msg_size may change only when both sides announce EXTENDED_MESSAGE: raised on our own announcement alone, UPDATEs of up to 65535 octets are packed for a peer that reads at most 4096 (RFC 8654)')
+
+
 def required_maps_directions(model: Model, req: FuncInfo) -> bool:
     """Negotiated.required answers addpath.receive exactly when the direction is IN and addpath.send otherwise: every
     value it can return is listed with the facts it is returned under (whichever way the choice is written)."""
